@@ -95,6 +95,9 @@ CORPUS = {
         Q_RENAME_WEIGHT, Q_ERRMSG,
     ],
     'C03': [
+        ('generator-prefix-any-equal', 'fire', [(RP, '''                .zip(max_statement.generators.gi_base_iter())
+                .any(|(a, b)| a != b)''', '''                .zip(max_statement.generators.gi_base_iter())
+                .any(|(a, b)| a == b)''')], 'R-C03-3'),
         ('skip-result-in-verify-only', 'fire', [(RP, '                VerifyAction::VerifyOnly => masks.push(None),', '                VerifyAction::VerifyOnly => {},')], 'R-C03-2'),
         ('consistency-from-third-member', 'fire', [(RP, 'for (i, (statement, proof)) in statements.iter().zip(range_proofs.iter()).enumerate().skip(1) {', 'for (i, (statement, proof)) in statements.iter().zip(range_proofs.iter()).enumerate().skip(2) {')], 'R-C03-3'),
         ('transcript-count-lower-bound-only', 'fire', [(RP, '        if transcripts.len() != statements.len() {', '        if transcripts.len() < statements.len() {')], 'R-C03-3'),
@@ -151,12 +154,14 @@ CORPUS = {
         Q_RENAME_WEIGHT, Q_ERRMSG,
     ],
     'C06': [
+        ('value-fit-accepts-one-more-bit', 'fire', [(RP, '            if bit_length < 64 && opening.v >> bit_length > 0 {', '            if bit_length < 64 && opening.v >> bit_length > 1 {')], 'R-C06-1'),
         ('fit-guard-32', 'fire', [(RP, 'if bit_length < 64 && opening.v >> bit_length > 0 {', 'if bit_length < 32 && opening.v >> bit_length > 0 {')], 'R-C06-1'),
         ('opening-check-first-only', 'fire', [(RP, '        for (opening, commitment) in witness.openings.iter().zip(statement.commitments.iter()) {', '        for (opening, commitment) in witness.openings.iter().zip(statement.commitments.iter()).take(1) {')], 'R-C06'),
         ('extra-top-bit-rejection', 'fire', [(RP, '            // If the bit length is large enough, no `u64` value can overflow\n', '            if bit_length > 1 && opening.v >> (bit_length - 1) > 0 { return Err(ProofError::InvalidLength("x".to_string())); }\n')], 'R-C06'),
         Q_ERRMSG, Q_ZEROIZING_PUBLIC,
     ],
     'C07': [
+        ('promise-fit-over-first-statement-only', 'fire', [(RP, '            for value in Iterator::flatten(statement.minimum_value_promises.iter()) {', '            for value in Iterator::flatten(first_statement.minimum_value_promises.iter()) {')], 'R-C07-4'),
         ('promise-on-wrong-weight', 'fire', [(RP, '                    h_base_scalar -= weighted * Scalar::from(minimum_value);', '                    h_base_scalar -= weight * Scalar::from(minimum_value);')], 'R-C07-2'),
         ('range-guard-from-second-statement', 'fire', [(RP, '''        for (i, statement) in statements.iter().enumerate() {
             for value''', '''        for (i, statement) in statements.iter().enumerate().skip(1) {
@@ -165,6 +170,7 @@ CORPUS = {
         Q_EXTRACT_PROMISE_LOOP, Q_RENAME_WEIGHT,
     ],
     'C08': [
+        ('append-scalar-wipes-its-copy-first', 'fire', [('src/protocols/transcript_protocol.rs', '        self.append_message(label, scalar.as_bytes());', '        let mut bytes = scalar.to_bytes();\n        zeroize::Zeroize::zeroize(&mut bytes);\n        self.append_message(label, &bytes);')], 'R-C08-1'),
         ('unweighted-B-term', 'fire', [(RP, '            dynamic_scalars.push(-weight);', '            dynamic_scalars.push(-Scalar::ONE);')], 'R-C08-3'),
         ('constant-weight', 'fire', [(RP, '            let weight = Scalar::random_not_zero(&mut weight_transcript_rng);', '            let weight = Scalar::ONE;')], 'R-C08'),
         ('weights-ignore-s1', 'fire', [(TR, '        self.transcript.append_scalar(b"s1", s1);', '')], 'R-C08-1'),
@@ -187,6 +193,7 @@ CORPUS = {
         Q_RENAME_WEIGHT, Q_ERRMSG,
     ],
     'C11': [
+        ('h-tag-stored-at-byte-1', 'fire', [(BG, "            label[0] = b'H';", "            label[1] = b'H';")], 'R-C11-1'),
         ('same-tag-for-both-chains', 'fire', [(BG, "            label[0] = b'H';", "            label[0] = b'G';")], 'R-C11-1'),
         ('label-from-capacity', 'fire', [(BG, '            LittleEndian::write_u32(&mut label[1..5], party_index);', '            LittleEndian::write_u32(&mut label[1..5], party_capacity as u32);')], 'R-C11-1'),
         ('blinding-label-collapsed', 'fire', [('src/ristretto.rs', 'let label = "RISTRETTO_MASKING_BASEPOINT_".to_owned() + &i.to_string();', 'let label = "RISTRETTO_MASKING_BASEPOINT_".to_owned() + &(i / 7).to_string();')], 'R-C11-4'),
@@ -226,6 +233,7 @@ CORPUS = {
         Q_EXTRACT_PROMISE_LOOP, Q_ERRMSG,
     ],
     'C15': [
+        ('remainder-test-is-not-emptiness', 'fire', [(RP, '        if tuples.into_buffer().len() > 0 || !chunks.remainder().is_empty() {', '        if tuples.into_buffer().len() > 0 || !chunks.remainder().len() == 1 {')], 'R-C15-3'),
         ('encoder-swaps-r1-s1', 'fire', [(RP, '''        buf.extend_from_slice(self.r1.as_bytes());
         buf.extend_from_slice(self.s1.as_bytes());''', '''        buf.extend_from_slice(self.s1.as_bytes());
         buf.extend_from_slice(self.r1.as_bytes());''')], 'R-C15-1'),
